@@ -57,7 +57,13 @@ let seg_of s =
     | _ -> failwith "bad Z segment"
   end else bytes_of_hex s
 let segs_of s = if s = "_" || s = "" then [] else List.map seg_of (String.split_on_char ',' s)
-let caps_of s = if s = "-" || s = "_" then [] else List.map z_of_dec (String.split_on_char ',' s)
+(* table tokens: k = client k (0 = nil), n = promised client resolved to null (identity: nil),
+   r<k> = promised client resolved to client k (identity: k) -- identity is IsSame after resolution *)
+let cap_of_tok t =
+  if t = "n" then Z0
+  else if String.length t > 0 && t.[0] = 'r' then z_of_dec (String.sub t 1 (String.length t - 1))
+  else z_of_dec t
+let caps_of s = if s = "-" || s = "_" then [] else List.map cap_of_tok (String.split_on_char ',' s)
 let sel_of s = if s = "r" then SelRoot else SelField (z_of_dec (String.sub s 1 (String.length s - 1)))
 let cfg t d = { cfg_T = z_of_dec t; cfg_D = z_of_dec d; cfg_strict = true; cfg_root = true }
 let rdfix = { fx_depth = true; fx_upgrade = true; fx_bit = true }
@@ -82,6 +88,12 @@ let eout_s = function EOk true -> "T" | EOk false -> "F" | EErr -> "E" | EPanic 
 
 let c17 f =
   match f with
+  | [kind; _same; _aa; _at; _ad; asegs; _acaps; asel; _ba; _bt; _bd; bsegs; _bcaps; bsel]
+    when String.length kind >= 7 && (String.sub kind 0 7 = "big/T/d" || String.sub kind 0 7 = "big/F/d") ->
+    (* data-big boundary pairs: decoder + documented equality only *)
+    (match spec_equal_big (cfg gen_T "0") (cfg gen_T "0") (segs_of asegs) (segs_of bsegs) (sel_of asel) (sel_of bsel) pcap with
+     | Some true -> "big T" | Some false -> "big F" | None -> "big ?")
+  | kind :: _ when String.length kind >= 3 && String.sub kind 0 3 = "big" -> "big"
   | [_kind; same; _aa; at; ad; asegs; acaps; asel; _ba; bt; bd; bsegs; bcaps; bsel] ->
     let same = same = "1" in
     let ma = segs_of asegs and mb = segs_of bsegs in
@@ -90,15 +102,24 @@ let c17 f =
     let fx = { fx_bitlist = fixed; fx_farnull = fixed; fx_rd = rdfix } in
     let bt, bd = if same then at, ad else bt, bd in
     let ((r, rla), rlb) = run_equal (nat_of_int 200) (cfg at ad) (cfg bt bd) fx ma ca mb cb same sa sb in
-    let ((spec, ta), tb) = spec_equal wfuel (cfg gen_T "0") (cfg gen_T "0") rdfix ma ca mb cb same sa sb dcap pcap in
+    let ((spec, ta), tb) = spec_equal_v wfuel (cfg gen_T "0") (cfg gen_T "0") rdfix ma ca mb cb same sa sb dcap pcap in
     let spec_s = match spec with
-      | Some b -> if b then "T" else "F"
-      | _ -> "-" in
+      | Some (Some b) -> if b then "T" else "F"
+      | Some None -> "?"          (* complete walks but no decoded value: must not happen *)
+      | None -> "-" in
     Printf.sprintf "%s %s %s %s %s %s" (eout_s r) (dec_of_z rla) (dec_of_z rlb) spec_s (tree_s ta) (tree_s tb)
   | _ -> "bad-case"
 
 let c18 f =
   match f with
+  | [kind; _g; _a; _t; _d; segs; asel] when String.length kind >= 5 && String.sub kind 0 5 = "big/d" ->
+    (* data-big boundary cases: decoder + specification only (the walker and the step-by-step
+       model are quadratic on the list-based memory) *)
+    (match spec_canon_big (cfg gen_T "0") (segs_of segs) (sel_of asel) pcap with
+     | Some (Some bs) -> "big ok:" ^ hex_of_bytes bs
+     | Some None -> "big cap"
+     | None -> "big ?")
+  | kind :: _ when String.length kind >= 3 && String.sub kind 0 3 = "big" -> "big"
   | [_kind; _group; _arena; t; d; segs; asel] ->
     let m = segs_of segs in
     let s = sel_of asel in
@@ -106,17 +127,28 @@ let c18 f =
     let res = match run_canon (nat_of_int 200) (cfg t d) fx m s with
       | KOk bs -> "ok:" ^ hex_of_bytes bs
       | KErr -> "E" | KPanic -> "panic" | KFuel -> "fuel" in
-    let (spec, tr) = spec_canon wfuel (cfg gen_T "0") rdfix m s dcap pcap in
+    let (spec, tr) = spec_canon_v wfuel (cfg gen_T "0") rdfix m s dcap pcap in
     let spec_s, flags = match spec with
       | None -> "-", "-"
-      | Some None -> "cap", "-"
-      | Some (Some bs) ->
+      | Some None -> "?", "-"     (* complete walk but no decoded value: must not happen *)
+      | Some (Some None) -> "cap", "-"
+      | Some (Some (Some bs)) ->
         "ok:" ^ hex_of_bytes bs,
         (match spec_recanon bs with
-         | Some bs' when bs' = bs -> "R1I1G1P1"
-         | _ -> "R1I1G1P0") in
+         | Some bs' when bs' = bs -> "R1I1G1P1K1J1"
+         | _ -> "R1I1G1P0K1J1") in
     Printf.sprintf "%s %s %s %s" res spec_s flags (tree_s tr)
   | _ -> "bad-case"
+
+(* the extracted list functions are not tail recursive: boundary-size segments (1 MiB) need a
+   deep stack, so the driver re-executes itself once under a raised stack limit *)
+let () =
+  if Sys.getenv_opt "VALDRV_CHILD" = None then begin
+    let args = String.concat " " (List.map Filename.quote (List.tl (Array.to_list Sys.argv))) in
+    let cmd = Printf.sprintf "ulimit -s unlimited 2>/dev/null || ulimit -s 4000000 2>/dev/null; VALDRV_CHILD=1 exec %s %s"
+        (Filename.quote Sys.executable_name) args in
+    exit (Sys.command cmd)
+  end
 
 let () = iter_lines (fun line ->
   let f = split_ws line in
